@@ -241,7 +241,7 @@ impl Check for C07 {
         "fault_enumeration"
     }
     fn rule(&self) -> String {
-        "two kinds of evaluation: (a) honest simulated runs (circuits with NOT gates, all roles, n in 2..4); (b) attacked runs: every must-detect and optional deviation of the C04 catalogue (message deviations with the scripted adversary that never stops, self-consistent lies with the live adversary + taps) the structure-aware mutations of the online-phase messages, one per run, and a seeded swarm of multi-edit runs. Every single-message deviation is run twice: with the scripted adversary (keeps going whatever happens) and with the live adversary (real code on the corrupted side, so everything it transmits is computed from what it holds in this run). After each run everything sent by anyone is pooled, except counterfactual messages: what the scripted adversary replays after the honest parties' answers to it differ from the reference run (computed from another execution with the same secrets - a rewinding adversary, which the statement does not cover) and, causally, whatever honest parties send after consuming such a message; for every honest party h with probed global key D: D appears at no byte offset in either byte order; no two 16-byte windows (all offsets, both orders) XOR to D; no three decoded 128-bit fields XOR to D (pair budget per run: 3e5 in quick, 3e6 in thorough, which is exhaustive for the small configurations). In the honest runs the points of every base-OT receiver message (the choice bits are the bits of the global key) are tested for linkability: for no two indices may R_i - R_j be 0, S or -S. In every run the engine itself reports (probe) whether the labels the evaluator holds for an AND gate open any of the three other rows of that gate; none may. The oracle is applied whatever the outcome of the run (a leak followed by an abort is a leak). distinct = (configuration, deviation) hash".into()
+        "two kinds of evaluation: (a) honest simulated runs (circuits with NOT gates, all roles, n in 2..4); (b) attacked runs: every must-detect and optional deviation of the C04 catalogue (message deviations with the scripted adversary that never stops, self-consistent lies with the live adversary + taps) the structure-aware mutations of the online-phase messages, one per run, and a seeded swarm of multi-edit runs. Every single-message deviation is run twice: with the scripted adversary (keeps going whatever happens) and with the live adversary (real code on the corrupted side, so everything it transmits is computed from what it holds in this run). After each run everything sent by anyone is pooled, except counterfactual messages: what the scripted adversary replays after the honest parties' answers to it differ from the reference run (computed from another execution with the same secrets - a rewinding adversary, which the statement does not cover) and, causally, whatever honest parties send after consuming such a message; for every honest party h with probed global key D: D appears at no byte offset in either byte order; no two 16-byte windows (all offsets, both orders) XOR to D; no three decoded 128-bit fields XOR to D (pair budget per run: 3e5 in quick, 3e6 in thorough, which is exhaustive for the small configurations). With trusted-dealer preprocessing (n in 3..5) the keys a party holds for its different peers are pairwise different (one key for two peers makes the XOR of their MACs the global key). In the honest runs the points of every base-OT receiver message (the choice bits are the bits of the global key) are tested for linkability: for no two indices may R_i - R_j be 0, S or -S. In every run the engine itself reports (probe) whether the labels the evaluator holds for an AND gate open any of the three other rows of that gate; none may. The oracle is applied whatever the outcome of the run (a leak followed by an abort is a leak). distinct = (configuration, deviation) hash".into()
     }
     fn assumptions(&self) -> Vec<String> {
         vec![
@@ -261,13 +261,44 @@ impl Check for C07 {
                 v.push(json!({"seed": seed, "kind": "attack", "k": k, "shard": sh, "budget": budget}));
             }
         }
+        // trusted-dealer preprocessing, n in 3..5: independent keys per peer
+        for k in 0..(if tier == Tier::Quick { 3 } else { 30 }) {
+            v.push(json!({"seed": seed, "kind": "dealer", "k": k}));
+        }
         v
     }
     fn run_case(&self, case: &Value, cx: &CaseCx) -> CaseOut {
         let mut out = CaseOut::default();
         let seed = case["seed"].as_u64().unwrap();
         let k = case["k"].as_u64().unwrap();
-        let budget = case["budget"].as_u64().unwrap() as usize;
+        let budget = case["budget"].as_u64().unwrap_or(0) as usize;
+        if case["kind"] == "dealer" {
+            let mut rng = entropy::rng(seed, 0xc07d, k);
+            let n = 3 + (k as usize) % 3;
+            let spec = crate::checks::preproc::PreSpec {
+                n,
+                l: [3usize, 17, 40][rng.random_range(0..3)],
+                ands: [0usize, 2, 6][rng.random_range(0..3)],
+                dealer: true,
+                cap: 0,
+                seed: rng.random(),
+                sched: crate::sim::SchedSpec { strategy: crate::sim::Strategy::Uniform, seed: rng.random(), explicit: vec![] },
+                equivocate: None,
+                dealer_cheater: None,
+                dealer_cheater_zero_macs: false,
+            };
+            cx.begin(&json!({"dealer_keys": spec}));
+            let (v, steps, _) = crate::checks::preproc::c10_run(&spec);
+            out.evals += 1;
+            out.sim_steps += steps;
+            out.count("trusted_dealer_runs_checked_for_independent_keys", 1);
+            out.distinct.push(entropy::mix(n as u64, 0xdea1e7, spec.seed));
+            out.violations.extend(v.into_iter().filter(|x| x.class == "same-key-for-several-peers").map(|mut x| {
+                x.spec = json!({"dealer_keys": spec});
+                x
+            }));
+            return out;
+        }
         if case["kind"] == "honest" {
             for j in 0..6u64 {
                 let mut rng = entropy::rng(seed, 0xc07, k * 6 + j);
@@ -364,6 +395,15 @@ impl Check for C07 {
         out
     }
     fn replay(&self, spec: &Value) -> Vec<Violation> {
+        if let Some(d) = spec.get("dealer_keys") {
+            return match serde_json::from_value::<crate::checks::preproc::PreSpec>(d.clone()) {
+                Ok(s) => crate::checks::preproc::c10_run(&s).0.into_iter().filter(|x| x.class == "same-key-for-several-peers").map(|mut x| {
+                    x.spec = spec.clone();
+                    x
+                }).collect(),
+                Err(_) => vec![],
+            };
+        }
         let Some(spec) = parse_spec(spec) else { return vec![] };
         let run = run_attack(&spec, None);
         let mut v = c07_oracle(&spec, &run, usize::MAX / 2).0;
